@@ -71,7 +71,7 @@ func gen(r *harn.Rng, tier string) interface{} {
 	for i := 0; i < nr; i++ {
 		var plan []dg
 		for j, n := 0, r.Range(1, 6); j < n; j++ {
-			plan = append(plan, dg{GapNs: gaps[r.Intn(len(gaps))], Len: r.Pick(8, 8, 20, 200, 1400, 2045, 2046, 2047, 8000), Odd: r.Bool(0.3)})
+			plan = append(plan, dg{GapNs: gaps[r.Intn(len(gaps))], Len: r.Pick(8, 8, 20, 200, 1400, 2045, 2046, 2047, 8000, 8191, 8192), Odd: r.Bool(0.3)})
 		}
 		if r.Bool(0.12) {
 			// two small datagrams and one that ends exactly at the end of the connection's 2 KiB ring
